@@ -160,6 +160,7 @@ struct Rec {
     ttl: u32,
     rdata: usize,
     rdlen: usize,
+    #[allow(dead_code)]
     end: usize,
 }
 
@@ -269,7 +270,9 @@ struct RefTsig {
 enum Locate {
     Missing,
     Position(&'static str),
+    #[allow(dead_code)]
     Malformed(String),
+    #[allow(dead_code)]
     BadRdata(String),
     Found(RefTsig),
 }
@@ -457,7 +460,26 @@ fn verify_found(
     let mut applicable: Vec<Expect> = Vec::new();
     let mac_ok = full[..n] == t.mac[..];
     if !mac_ok {
-        applicable.push(Expect::new(Cls::BadSig, "mac-mismatch"));
+        // explain the received MAC where a specific wrong digest reproduces it,
+        // so that each cause gets its own violation class
+        let mut cause = "mac-mismatch";
+        if !timers_only && !t.other.is_empty() {
+            let no_other = key.full_mac(&[prefix, &stripped, &ref_variables(key, t.time, t.fudge, t.error, &[])]);
+            if no_other[..n] == t.mac[..] {
+                cause = "mac-mismatch(received MAC does not cover Other Len/Other Data)";
+            }
+            if t.other.len() == 6 {
+                let mut v = ref_variables(key, t.time, t.fudge, t.error, &[]);
+                let k = v.len();
+                v[k - 2..].copy_from_slice(&6u16.to_be_bytes());
+                v.extend_from_slice(&[0, 0]);
+                v.extend_from_slice(&t.other);
+                if key.full_mac(&[prefix, &stripped, &v])[..n] == t.mac[..] {
+                    cause = "mac-mismatch(received MAC covers 8 octets of other data after Other Len 6)";
+                }
+            }
+        }
+        applicable.push(Expect::new(Cls::BadSig, cause));
     }
     let rcode = m[3] & 0x0F;
     if client && rcode == 9 && t.error == 18 {
@@ -496,7 +518,14 @@ fn verify_found(
         if n < key.alg.native() {
             notes.push("mac-truncated-within-policy");
         }
-        let cause = if notes.is_empty() { "intact".to_string() } else { notes.join("+") };
+        // one cause per class: the first difference from an untouched message
+        notes.sort_by_key(|n| match *n {
+            "algorithm-name-not-lowercase" => 0,
+            "key-name-case-differs" => 1,
+            "header-id-differs-from-original-id" => 2,
+            _ => 3,
+        });
+        let cause = if notes.is_empty() { "intact".to_string() } else { notes[0].to_string() };
         return done(Expect::new(Cls::Accept, &cause), mac, stripped);
     }
     let mut e = applicable.remove(0);
@@ -568,7 +597,14 @@ impl RefClient {
                 }
                 return (Expect::new(Cls::Accept, "unsigned-intermediate"), Commit::Unsigned);
             }
-            Locate::Position(c) => return (Expect::new(Cls::FormErr, c), Commit::None),
+            Locate::Position(c) => {
+                // a client only discards: "answer carries no (well placed) TSIG" is as good as FormErr
+                let mut e = Expect::new(Cls::FormErr, c);
+                if !self.seq || self.first {
+                    e = e.alt(&[Cls::Unsigned]);
+                }
+                return (e, Commit::None);
+            }
             Locate::Malformed(_) => {
                 return (
                     Expect::new(Cls::FormErr, "message-unparseable").alt(&[Cls::BadSig, Cls::BadKey]),
@@ -858,7 +894,11 @@ fn judge(
     if exp.allows(got) {
         return true;
     }
-    let sig = format!("C11|{role}|{op}|{}|expected {:?}|observed {:?}", exp.cause, exp.primary, got);
+    // the explanation of a wrong MAC matters only when the library took the
+    // message for authentic; a wrong rejection class is one class per cause kind
+    let authentic = matches!(got, Cls::Accept | Cls::SrvBadTime);
+    let cause = if authentic { exp.cause.as_str() } else { exp.cause.split('(').next().unwrap() };
+    let sig = format!("C11|{role}|{op}|{cause}|expected {:?}|observed {:?}", exp.primary, got);
     ctx.violation(
         &sig,
         &format!(
@@ -874,7 +914,13 @@ fn report_panic(ctx: &Ctx, role: &str, op: &str, cause: &str, msg: &str, replay:
     if verbose() {
         println!("  {role}.{op}: PANIC {msg}");
     }
-    let sig = format!("C11|{role}|{op}|{cause}|panic|{}", panic_class(msg));
+    // "missing or malformed TSIG record: Position @ file" -> one class per panic site
+    let pc = panic_class(msg);
+    let pc = match (pc.split_once(": "), pc.rsplit_once(" @ ")) {
+        (Some((head, _)), Some((_, file))) => format!("{head} @ {file}"),
+        _ => pc,
+    };
+    let sig = format!("C11|{role}|{op}|{cause}|panic|{pc}");
     ctx.violation(&sig, &format!("{role}.{op} panicked: {msg}"), replay());
 }
 
@@ -974,6 +1020,7 @@ fn check_signed_by_lib(
     op: &str,
     key: &RefKey,
     prefix: &[u8],
+    alt_prefix: Option<&[u8]>,
     presign: &[u8],
     signed: &[u8],
     timers_only: bool,
@@ -1005,11 +1052,12 @@ fn check_signed_by_lib(
     let full = key.full_mac(&[prefix, presign, &vars]);
     if full[..key.sign] != t.mac[..] {
         // classify the cause for a narrow signature
-        let mut why = "unexplained";
-        if timers_only || !prefix.is_empty() {
-            // prior MAC digested untruncated?
-            // (only meaningful when the prefix was a truncated MAC; the caller passes that variant)
-            why = "mac-differs-from-rfc8945";
+        let mut why = "observed=unexplained";
+        if let Some(ap) = alt_prefix {
+            let alt = key.full_mac(&[ap, presign, &vars]);
+            if alt[..key.sign] == t.mac[..] {
+                why = "observed=prior-mac-digested-untruncated";
+            }
         }
         return fail(
             &format!("mac!=reference|{why}|truncating-key={}", key.sign < key.alg.native()),
@@ -1025,6 +1073,10 @@ struct ServerOutcome {
     sq: Option<ServerSequence<K>>,
     /// on agreed accept: key index and wire MAC of the request
     acc: Option<(usize, Vec<u8>)>,
+    /// the answer signed by the accepted machine (post step), if it matched the reference
+    answer: Option<Vec<u8>>,
+    /// the error response built from a ServerError
+    err_response: Option<Vec<u8>>,
 }
 
 /// One transition of the server machine on one (possibly mutated) request.
@@ -1037,7 +1089,7 @@ fn eval_server(ctx: &Ctx, l: &mut Local, sc: &ServerScen, msg: &[u8], mutation: 
     l.ref_cls[0][exp.primary as usize] += 1;
     let mut m = Message::from_octets(msg.to_vec()).expect("harness messages have a header");
     let r = guard(|| lib_server_request(&sc.store, sc.seq, &mut m, sc.now));
-    let mut out = ServerOutcome { got: Cls::Other, tx: None, sq: None, acc: None };
+    let mut out = ServerOutcome { got: Cls::Other, tx: None, sq: None, acc: None, answer: None, err_response: None };
     let r = match r {
         Err(p) => {
             report_panic(ctx, "server", "request", &exp.cause, &p, &replay);
@@ -1083,15 +1135,18 @@ fn eval_server(ctx: &Ctx, l: &mut Local, sc: &ServerScen, msg: &[u8], mutation: 
                     ctx.violation("C11|server|answer|push-error", &format!("answer() failed: {e}"), replay());
                 }
                 Ok(Ok(())) => {
-                    check_signed_by_lib(ctx, "server", "answer-after-request", key, &mac_prefix(&mac), &sc.answer_presign,
-                        b.as_slice(), false, now2, 300, &replay);
+                    if check_signed_by_lib(ctx, "server", "answer-after-request", key, &mac_prefix(&mac), None, &sc.answer_presign,
+                        b.as_slice(), false, now2, 300, &replay).is_some() {
+                        l.c("answer MAC equals reference");
+                        out.answer = Some(b.as_slice().to_vec());
+                    }
                 }
             }
         }
     }
     if let Some(e) = err {
         if sc.check_errors {
-            check_server_error(ctx, l, sc, msg, e, &exp, got, agreed, mutation);
+            out.err_response = check_server_error(ctx, l, sc, msg, e, &exp, got, agreed, mutation);
         }
     }
     out
@@ -1128,7 +1183,7 @@ fn check_server_error(
     got: Cls,
     agreed: bool,
     mutation: &str,
-) {
+) -> Option<Vec<u8>> {
     let replay = || sc.replay(msg);
     l.transitions += 1;
     l.states += 1;
@@ -1137,12 +1192,13 @@ fn check_server_error(
     let bytes = match r {
         Err(p) => {
             l.c("build_message: panic");
-            report_panic(ctx, "server-error", "build_message", &format!("{:?}:{}", got, exp.cause), &p, &replay);
-            return;
+            let _ = exp;
+            report_panic(ctx, "server-error", "build_message", &format!("{got:?}"), &p, &replay);
+            return None;
         }
         Ok(Err(e)) => {
             ctx.violation("C11|server-error|build_message|push-error", &format!("build_message failed: {e}"), replay());
-            return;
+            return None;
         }
         Ok(Ok(b)) => b,
     };
@@ -1150,9 +1206,17 @@ fn check_server_error(
     if verbose() {
         println!("  server-error.build_message [{mutation}] -> {}", hex(&bytes));
     }
+    let out = Some(bytes.clone());
     if !agreed {
-        return; // the class itself is already reported; do not pile on
+        return out; // the class itself is already reported; do not pile on
     }
+    check_error_response(ctx, l, sc, msg, &bytes, got);
+    out
+}
+
+fn check_error_response(ctx: &Ctx, l: &mut Local, sc: &ServerScen, msg: &[u8], bytes: &[u8], got: Cls) {
+    let replay = || sc.replay(msg);
+    let bytes = bytes.to_vec();
     let fail = |what: &str, detail: String| {
         ctx.violation(&format!("C11|server-error|build_message|{got:?}|{what}"), &format!("error response for {got:?}: {detail}"), replay());
     };
@@ -1224,4 +1288,1267 @@ fn check_server_error(
         }
         _ => {}
     }
+}
+
+#[derive(Clone)]
+enum LibClient {
+    Tx(ClientTransaction<K>),
+    Seq(ClientSequence<K>),
+}
+
+/// A client machine (real + reference) in some reached state.
+#[derive(Clone)]
+struct ClientScen {
+    key: KeySpec,
+    req_presign: Vec<u8>,
+    req_now: u64,
+    fudge: u16,
+    steps: Vec<(Vec<u8>, u64)>,
+    lib: LibClient,
+    rc: RefClient,
+}
+
+impl ClientScen {
+    /// Transition: sign a request with the real client machine; the signed
+    /// request is checked against the reference signer.
+    fn start(ctx: &Ctx, l: &mut Local, key: &KeySpec, seq: bool, req_presign: &[u8], req_now: u64, fudge: u16) -> Option<(ClientScen, Vec<u8>)> {
+        let k = key.lib().ok()?.ok()?;
+        let rk = key.refkey();
+        let replay = || json!({"kind": "client", "key": key.json(), "seq": seq, "req_presign": hex(req_presign), "req_now": req_now, "fudge": fudge, "steps": []});
+        let mut b = builder_from(req_presign);
+        l.evals += 1;
+        l.transitions += 1;
+        l.states += 1;
+        let now = Time48::from_u64(req_now);
+        let r = guard(|| {
+            if seq {
+                ClientSequence::request_with_fudge(k.clone(), &mut b, now, fudge).map(LibClient::Seq).map_err(|e| format!("{e:?}"))
+            } else {
+                ClientTransaction::request_with_fudge(k.clone(), &mut b, now, fudge).map(LibClient::Tx).map_err(|e| format!("{e:?}"))
+            }
+        });
+        let role = if seq { "client-sequence" } else { "client-transaction" };
+        let lib = match r {
+            Err(p) => {
+                report_panic(ctx, role, "request", "honest", &p, &replay);
+                return None;
+            }
+            Ok(Err(e)) => {
+                ctx.violation(&format!("C11|{role}|request|push-error"), &format!("request() failed: {e}"), replay());
+                return None;
+            }
+            Ok(Ok(c)) => c,
+        };
+        let signed = b.as_slice().to_vec();
+        let mac = check_signed_by_lib(ctx, role, "request", &rk, &[], None, req_presign, &signed, false, req_now, fudge, &replay)?;
+        l.c("request MAC equals reference");
+        Some((
+            ClientScen {
+                key: key.clone(),
+                req_presign: req_presign.to_vec(),
+                req_now,
+                fudge,
+                steps: Vec::new(),
+                lib,
+                rc: RefClient::new(&rk, seq, &mac),
+            },
+            signed,
+        ))
+    }
+
+    fn replay(&self, msg: &[u8], now: u64) -> Value {
+        client_replay(&self.key, self.rc.seq, &self.req_presign, self.req_now, self.fudge, &self.steps, msg, now)
+    }
+
+    /// Transition: feed one answer to the real machine and to the reference.
+    /// Returns (library class, agreed and equal to the reference's primary).
+    fn step(&mut self, ctx: &Ctx, l: &mut Local, msg: &[u8], now: u64, mutation: &str) -> (Cls, bool) {
+        let r = client_eval(ctx, l, &self.key, &self.req_presign, self.req_now, self.fudge, &self.steps, &mut self.lib, &mut self.rc, msg, now, mutation);
+        self.steps.push((msg.to_vec(), now));
+        r
+    }
+
+    /// Same transition on a copy of the state (fault enumeration).
+    fn probe(&self, ctx: &Ctx, l: &mut Local, msg: &[u8], now: u64, mutation: &str) -> (Cls, bool) {
+        let mut lib = self.lib.clone();
+        let mut rc = self.rc.clone();
+        client_eval(ctx, l, &self.key, &self.req_presign, self.req_now, self.fudge, &self.steps, &mut lib, &mut rc, msg, now, mutation)
+    }
+
+    /// `done()` on a clone of a sequence state: Ok iff the last message was signed.
+    fn check_done(&self, ctx: &Ctx, l: &mut Local) {
+        if let LibClient::Seq(s) = &self.lib {
+            if self.rc.first {
+                return;
+            }
+            l.evals += 1;
+            l.transitions += 1;
+            let s = s.clone();
+            let this = self.clone();
+            let replay = || {
+                let mut v = this.replay(&[], 0);
+                v["steps"].as_array_mut().unwrap().pop();
+                v["done"] = json!(true);
+                v
+            };
+            match guard(|| s.done()) {
+                Err(p) => report_panic(ctx, "client-sequence", "done", "", &p, &replay),
+                Ok(r) => {
+                    let want_ok = self.rc.run == 0;
+                    if verbose() {
+                        println!("  client-sequence.done: reference ok={want_ok}, library {r:?}");
+                    }
+                    l.c(if r.is_ok() { "done: ok" } else { "done: error" });
+                    if r.is_ok() != want_ok {
+                        ctx.violation(
+                            &format!("C11|client-sequence|done|last-message-signed={want_ok}|observed ok={}", r.is_ok()),
+                            "done() must succeed iff the last message of the sequence carried a TSIG",
+                            replay(),
+                        );
+                    }
+                }
+            }
+        }
+    }
+}
+
+fn client_replay(key: &KeySpec, seq: bool, req_presign: &[u8], req_now: u64, fudge: u16, steps: &[(Vec<u8>, u64)], msg: &[u8], now: u64) -> Value {
+    let mut st: Vec<Value> = steps.iter().map(|(m, n)| json!({"msg": hex(m), "now": n})).collect();
+    st.push(json!({"msg": hex(msg), "now": now}));
+    json!({"kind": "client", "key": key.json(), "seq": seq, "req_presign": hex(req_presign),
+           "req_now": req_now, "fudge": fudge, "steps": st})
+}
+
+fn client_eval(
+    ctx: &Ctx,
+    l: &mut Local,
+    key: &KeySpec,
+    req_presign: &[u8],
+    req_now: u64,
+    fudge: u16,
+    steps: &[(Vec<u8>, u64)],
+    lib: &mut LibClient,
+    rc: &mut RefClient,
+    msg: &[u8],
+    now: u64,
+    mutation: &str,
+) -> (Cls, bool) {
+    l.evals += 1;
+    l.transitions += 1;
+    l.states += 1;
+    let seq = rc.seq;
+    let (role, ri) = if seq { ("client-sequence", 2) } else { ("client-transaction", 1) };
+    let op = if !seq {
+        "answer"
+    } else if rc.first {
+        "answer-first"
+    } else {
+        "answer-subsequent"
+    };
+    let replay = || client_replay(key, seq, req_presign, req_now, fudge, steps, msg, now);
+    let (exp, commit) = rc.expect(msg, now);
+    l.ref_cls[ri][exp.primary as usize] += 1;
+    let mut m = Message::from_octets(msg.to_vec()).expect("harness messages have a header");
+    let t = Time48::from_u64(now);
+    let r = guard(|| match lib {
+        LibClient::Tx(c) => c.answer(&mut m, t),
+        LibClient::Seq(c) => c.answer(&mut m, t),
+    });
+    let r = match r {
+        Err(p) => {
+            report_panic(ctx, role, op, &exp.cause, &p, &replay);
+            return (Cls::Other, false);
+        }
+        Ok(r) => r,
+    };
+    let got = match &r {
+        Ok(()) => Cls::Accept,
+        Err(e) => cls_of_validation(e),
+    };
+    l.lib_cls[ri][got as usize] += 1;
+    let agreed = judge(ctx, role, op, &exp, got, mutation, &replay);
+    if agreed && got == Cls::Accept {
+        match &commit {
+            Commit::Signed { stripped, .. } => check_restored(ctx, role, op, m.as_slice(), stripped, l, &replay),
+            Commit::Unsigned => {
+                if m.as_slice() != msg {
+                    ctx.violation(&format!("C11|{role}|{op}|unsigned-intermediate|message-modified"), "unsigned message was modified", replay());
+                }
+            }
+            Commit::None => {}
+        }
+    }
+    if agreed && got == Cls::SrvBadTime {
+        if let (Err(ValidationError::ServerBadTime { client, server }), Some((c, s))) = (&r, exp.times) {
+            if u64::from(*client) != c || u64::from(*server) != s {
+                ctx.violation(&format!("C11|{role}|{op}|server-reports-badtime|times"), &format!("ServerBadTime carries ({},{}) instead of ({c},{s})", u64::from(*client), u64::from(*server)), replay());
+            }
+        }
+    }
+    let same = agreed && exp.primary == got;
+    if same {
+        rc.commit(&commit, msg);
+    }
+    (got, same)
+}
+
+// =====================================================================
+// MESSAGES (harness-made wire octets)
+// =====================================================================
+
+fn qname() -> Vec<u8> {
+    wire::to_wire(&labels_of("www.Example.org"))
+}
+
+fn rr(owner: &[u8], rtype: u16, class: u16, ttl: u32, rdata: &[u8]) -> Vec<u8> {
+    let mut v = owner.to_vec();
+    v.extend_from_slice(&rtype.to_be_bytes());
+    v.extend_from_slice(&class.to_be_bytes());
+    v.extend_from_slice(&ttl.to_be_bytes());
+    v.extend_from_slice(&(rdata.len() as u16).to_be_bytes());
+    v.extend_from_slice(rdata);
+    v
+}
+
+const SHAPES: [&str; 5] = ["query", "answer3", "with-opt", "full", "big60k"];
+
+/// Pre-signing message of a given shape. `salt` varies the content.
+fn shape(kind: usize, response: bool, id: u16, rcode: u8, salt: u8) -> Vec<u8> {
+    let mut h = vec![0u8; 12];
+    set16(&mut h, 0, id);
+    h[2] = if response { 0x85 } else { 0x01 };
+    h[3] = if response { 0x80 | (rcode & 0x0F) } else { rcode & 0x0F };
+    let mut m = h;
+    m.extend_from_slice(&qname());
+    m.extend_from_slice(&[0, 1, 0, 1]);
+    set16(&mut m, 4, 1);
+    let ptr = [0xC0u8, 0x0C];
+    let (mut an, mut ns, mut ar) = (0u16, 0u16, 0u16);
+    match kind {
+        0 => {}
+        1 => {
+            for i in 0..3u8 {
+                m.extend_from_slice(&rr(&ptr, 1, 1, 3600, &[192, 0, 2, i.wrapping_add(salt)]));
+                an += 1;
+            }
+        }
+        2 => {
+            m.extend_from_slice(&rr(&ptr, 1, 1, 60, &[198, 51, 100, salt]));
+            an += 1;
+            // OPT: root owner, type 41, class = udp size 1232, ttl 0, one option
+            m.extend_from_slice(&rr(&[0], 41, 1232, 0, &[0, 10, 0, 8, 1, 2, 3, 4, 5, 6, 7, salt]));
+            ar += 1;
+        }
+        3 => {
+            m.extend_from_slice(&rr(&ptr, 1, 1, 60, &[203, 0, 113, salt]));
+            an += 1;
+            let mut nsd = vec![2, b'n', b's'];
+            nsd.extend_from_slice(&[0xC0, 0x10]); // ns.Example.org via pointer into the question
+            m.extend_from_slice(&rr(&[0xC0, 0x10], 2, 1, 86400, &nsd));
+            ns += 1;
+            let mut own = vec![2, b'n', b's'];
+            own.extend_from_slice(&[0xC0, 0x10]);
+            m.extend_from_slice(&rr(&own, 28, 1, 86400, &[0x20, 1, 0xd, 0xb8, 0, 0, 0, 0, 0, 0, 0, 0, 0, 0, 0, salt]));
+            ar += 1;
+        }
+        _ => {
+            let mut i = 0u32;
+            while m.len() < 60 * 1024 {
+                let mut txt = vec![255u8];
+                txt.extend((0..255u32).map(|j| (32 + ((i * 7 + j + salt as u32) % 90)) as u8));
+                m.extend_from_slice(&rr(&ptr, 16, 1, 300, &txt));
+                an += 1;
+                i += 1;
+            }
+        }
+    }
+    set16(&mut m, 6, an);
+    set16(&mut m, 8, ns);
+    set16(&mut m, 10, ar);
+    m
+}
+
+// =====================================================================
+// MUTATIONS
+// =====================================================================
+
+fn swap_case(l: &[Vec<u8>]) -> Vec<Vec<u8>> {
+    l.iter()
+        .map(|x| x.iter().map(|c| if c.is_ascii_alphabetic() { c ^ 0x20 } else { *c }).collect())
+        .collect()
+}
+
+/// Every structural mutation of one signed message. `prefix`/`timers_only`
+/// describe the signing context so that re-signed variants can be made.
+fn structural(m: &[u8], key: &RefKey, prefix: &[u8], timers_only: bool, now: u64) -> Vec<(String, Vec<u8>)> {
+    let t = match ref_locate(m) {
+        Locate::Found(t) => t,
+        _ => return Vec::new(),
+    };
+    let w = walk(m).unwrap();
+    let head = &m[..t.start];
+    let rr_bytes = &m[t.start..];
+    let presign = strip(m, &t);
+    let mut out: Vec<(String, Vec<u8>)> = Vec::new();
+    let build = |owner: &[Vec<u8>], class: u16, ttl: u32, alg: &[Vec<u8>], time: u64, mac: &[u8], orig: u16, other: &[u8]| {
+        let mut v = head.to_vec();
+        v.extend_from_slice(&tsig_rr(owner, class, ttl, alg, time, t.fudge, mac, orig, t.error, other));
+        v
+    };
+    let same = |mac: &[u8]| build(&t.owner, 255, 0, &t.alg, t.time, mac, t.orig_id, &t.other);
+    let sign_with = |k: &RefKey, time: u64| {
+        let vars = if timers_only { ref_timers(time, t.fudge) } else { ref_variables(k, time, t.fudge, t.error, &t.other) };
+        k.full_mac(&[prefix, &presign, &vars])
+    };
+    let full = sign_with(key, t.time);
+
+    // position of the record
+    let mut v = head.to_vec();
+    let ar = get16(&v, 10);
+    set16(&mut v, 10, ar - 1);
+    out.push(("tsig-removed".into(), v));
+    out.push(("tsig-duplicated".into(), append_ar(m, rr_bytes)));
+    out.push(("tsig-not-last(extra A record after it)".into(), append_ar(m, &rr(&[0], 1, 1, 0, &[192, 0, 2, 99]))));
+    for (sec, name) in [(0usize, "answer"), (1, "authority")] {
+        let pos = w.sec_end[sec];
+        let mut v = m[..pos].to_vec();
+        v.extend_from_slice(rr_bytes);
+        v.extend_from_slice(&m[pos..t.start]);
+        let c = get16(&v, 6 + 2 * sec);
+        set16(&mut v, 6 + 2 * sec, c + 1);
+        set16(&mut v, 10, ar - 1);
+        out.push((format!("tsig-moved-to-{name}-section"), v));
+    }
+    // key name
+    out.push(("key-name-replaced".into(), build(&labels_of("other-key.example"), 255, 0, &t.alg, t.time, &t.mac, t.orig_id, &t.other)));
+    let mut one = t.owner.clone();
+    let last = one[0].len() - 1;
+    one[0][last] = if one[0][last].to_ascii_lowercase() == b'q' { b'r' } else { b'q' };
+    out.push(("key-name-one-octet-changed".into(), build(&one, 255, 0, &t.alg, t.time, &t.mac, t.orig_id, &t.other)));
+    out.push(("key-name-case-swapped".into(), build(&swap_case(&t.owner), 255, 0, &t.alg, t.time, &t.mac, t.orig_id, &t.other)));
+    // algorithm
+    for a in ALGS {
+        if a != key.alg {
+            out.push((format!("algorithm-replaced-by-{a:?}"), build(&t.owner, 255, 0, &[a.label().to_vec()], t.time, &t.mac, t.orig_id, &t.other)));
+        }
+    }
+    out.push(("algorithm-replaced-by-unknown".into(), build(&t.owner, 255, 0, &labels_of("hmac-md5.sig-alg.reg.int"), t.time, &t.mac, t.orig_id, &t.other)));
+    out.push(("algorithm-name-upper-case".into(), build(&t.owner, 255, 0, &swap_case(&t.alg), t.time, &t.mac, t.orig_id, &t.other)));
+    // ids
+    out.push(("original-id-changed".into(), build(&t.owner, 255, 0, &t.alg, t.time, &t.mac, t.orig_id ^ 0x0100, &t.other)));
+    let mut v = m.to_vec();
+    set16(&mut v, 0, t.orig_id ^ 0x5A5A);
+    out.push(("header-id-changed(original-id intact)".into(), v));
+    let mut v = build(&t.owner, 255, 0, &t.alg, t.time, &t.mac, t.orig_id ^ 0x0100, &t.other);
+    set16(&mut v, 0, t.orig_id ^ 0x0100);
+    out.push(("header-id-and-original-id-changed".into(), v));
+    // MAC length: every length 0..=native+2 (correct prefix, zero padding)
+    let native = key.alg.native();
+    for n in 0..=native + 2 {
+        let mut mac = full.clone();
+        mac.resize(n, 0);
+        out.push((format!("mac-length-{n}(correct-prefix)"), same(&mac)));
+        if n >= key.alg.floor() && n <= native {
+            mac[n - 1] ^= 0x01;
+            out.push((format!("mac-length-{n}(last-octet-wrong)"), same(&mac)));
+        }
+    }
+    // wrong secret
+    let mut wrong = key.clone();
+    wrong.hk = hmac::Key::new(key.alg.ring(), b"a completely different secret!!!");
+    out.push(("signed-with-wrong-secret".into(), same(&sign_with(&wrong, t.time)[..t.mac.len()])));
+    // validly signed at other times
+    let f = t.fudge as u64;
+    for (name, time) in [
+        ("resigned-time=now-fudge-1", now.checked_sub(f + 1)),
+        ("resigned-time=now-fudge", now.checked_sub(f)),
+        ("resigned-time=now+fudge", Some(now + f)),
+        ("resigned-time=now+fudge+1", Some(now + f + 1)),
+    ] {
+        if let Some(time) = time {
+            if time < (1 << 48) {
+                let mac = sign_with(key, time);
+                out.push((name.into(), build(&t.owner, 255, 0, &t.alg, time, &mac[..t.mac.len()], t.orig_id, &t.other)));
+            }
+        }
+    }
+    // class / ttl of the TSIG RR
+    for (name, class, ttl) in [("tsig-class-IN", 1u16, 0u32), ("tsig-class-NONE", 254, 0), ("tsig-ttl-1", 255, 1), ("tsig-ttl-top-bit", 255, 0x8000_0000)] {
+        out.push((name.into(), build(&t.owner, class, ttl, &t.alg, t.time, &t.mac, t.orig_id, &t.other)));
+    }
+    // other data added without re-signing
+    if t.other.is_empty() {
+        out.push(("other-data-4-octets-added".into(), build(&t.owner, 255, 0, &t.alg, t.time, &t.mac, t.orig_id, &[1, 2, 3, 4])));
+        out.push(("other-data-6-octets-added".into(), build(&t.owner, 255, 0, &t.alg, t.time, &t.mac, t.orig_id, &[0, 0, 1, 2, 3, 4])));
+    }
+    // rdata length off by one
+    let mut v = m.to_vec();
+    let rdlen_pos = walk(m).unwrap().recs.last().unwrap().rdata - 2;
+    let rl = get16(&v, rdlen_pos);
+    set16(&mut v, rdlen_pos, rl + 1);
+    v.push(0);
+    out.push(("tsig-rdata-one-trailing-octet".into(), v));
+    let mut v = m.to_vec();
+    set16(&mut v, rdlen_pos, rl - 1);
+    v.pop();
+    out.push(("tsig-rdata-one-octet-short".into(), v));
+    out
+}
+
+// =====================================================================
+// RUNNERS
+// =====================================================================
+
+const T0: u64 = 1_700_000_000;
+const SECRET: &[u8] = b"0123456789abcdefghijklmnopqrstuv";
+const OFFSETS: [i64; 5] = [-301, -300, 0, 300, 301];
+
+fn key_variants(quick: bool, mutation_set: bool) -> Vec<KeySpec> {
+    let mut v = Vec::new();
+    for alg in ALGS {
+        let n = alg.native();
+        let f = alg.floor();
+        let mut vals = vec![n, f];
+        if !quick && !mutation_set {
+            vals.push(f + 3);
+        }
+        vals.dedup();
+        for &mn in &vals {
+            for &sg in &vals {
+                for name in ["tsig-key.example", "TSIG-Key.Example"] {
+                    if mutation_set && quick && !((mn == n && sg == n && name.starts_with('t')) || (mn == f && sg == f && name.starts_with('T'))) {
+                        continue;
+                    }
+                    v.push(KeySpec {
+                        alg,
+                        secret: SECRET.to_vec(),
+                        name: name.to_string(),
+                        min: if mn == n { None } else { Some(mn) },
+                        sign: if sg == n { None } else { Some(sg) },
+                    });
+                }
+            }
+        }
+    }
+    v
+}
+
+/// Key::new accepts exactly the RFC 8945 5.2.2.1 range for both lengths.
+fn run_key_bounds(ctx: &Ctx, g: &Glob) {
+    let mut cases = Vec::new();
+    for alg in ALGS {
+        let mut opts: Vec<Option<usize>> = vec![None];
+        opts.extend((0..=alg.native() + 2).map(Some));
+        opts.push(Some(255));
+        opts.push(Some(65536));
+        for &mn in &opts {
+            for &sg in &opts {
+                cases.push((alg, mn, sg));
+            }
+        }
+    }
+    cases.par_iter().for_each(|&(alg, mn, sg)| {
+        let mut l = Local::default();
+        check_key_new(ctx, &mut l, alg, mn, sg);
+        g.merge(l);
+    });
+}
+
+fn check_key_new(ctx: &Ctx, l: &mut Local, alg: Alg, mn: Option<usize>, sg: Option<usize>) {
+    l.evals += 1;
+    l.transitions += 1;
+    l.states += 1;
+    let spec = KeySpec { alg, secret: SECRET.to_vec(), name: "k.example".into(), min: mn, sign: sg };
+    let inb = |x: Option<usize>| x.map(|x| x >= alg.floor() && x <= alg.native()).unwrap_or(true);
+    let want = inb(mn) && inb(sg);
+    let replay = || json!({"kind": "key_new", "alg": alg.idx(), "min": mn, "sign": sg});
+    match spec.lib() {
+        Err(p) => report_panic(ctx, "key", "new", "bounds", &p, &replay),
+        Ok(r) => {
+            if verbose() {
+                println!("  Key::new({alg:?}, min {mn:?}, sign {sg:?}): reference ok={want}, library {:?}", r.as_ref().map(|_| ()));
+            }
+            l.c(if r.is_ok() { "Key::new: ok" } else { "Key::new: refused" });
+            if want {
+                l.distinct.push(fnv(format!("key{alg:?}{mn:?}{sg:?}").as_bytes()));
+            }
+            if r.is_ok() != want {
+                ctx.violation(
+                    &format!("C11|key|new|length-in-rfc-range={want}|observed ok={}", r.is_ok()),
+                    &format!("Key::new({alg:?}, min_mac_len {mn:?}, signing_len {sg:?}) -> ok={}, RFC 8945 5.2.2.1 range [{}, {}]", r.is_ok(), alg.floor(), alg.native()),
+                    replay(),
+                );
+            } else if let Ok(k) = r {
+                if k.min_mac_len() != mn.unwrap_or(alg.native()) || k.signing_len() != sg.unwrap_or(alg.native()) || k.native_len() != alg.native() {
+                    ctx.violation("C11|key|new|lengths-not-as-configured", "Key reports other lengths than configured", replay());
+                }
+            }
+        }
+    }
+}
+
+fn off(t: u64, o: i64) -> Option<u64> {
+    let r = t as i64 + o;
+    if r < 0 || r >= (1i64 << 48) {
+        None
+    } else {
+        Some(r as u64)
+    }
+}
+
+/// Honest exchanges: client request -> server verify -> server answer ->
+/// client verify, at every clock offset, plus the error-response paths.
+fn run_exchanges(ctx: &Arc<Ctx>, g: &Glob, wd: &Watchdog) {
+    let quick = ctx.quick();
+    let kvs = key_variants(quick, false);
+    let mut jobs = Vec::new();
+    for kv in &kvs {
+        for rs in [0usize, 2, 3, 4] {
+            if rs == 4 && !(kv.min.is_none() && kv.sign.is_none()) {
+                continue;
+            }
+            for seq in [false, true] {
+                jobs.push((kv.clone(), rs, seq));
+            }
+        }
+    }
+    jobs.par_iter().for_each(|(kv, rs, seq)| {
+        wd.enter(|| json!({"kind": "job", "runner": "exchanges", "key": kv.json(), "shape": rs, "seq": seq}));
+        let mut l = Local::default();
+        exchange(ctx, &mut l, kv, *rs, *seq);
+        g.merge(l);
+        wd.leave();
+    });
+}
+
+fn exchange(ctx: &Ctx, l: &mut Local, kv: &KeySpec, rs: usize, seq: bool) {
+    let id = 0xA5C3u16;
+    let rk = kv.refkey();
+    let req_presign = shape(rs, false, id, 0, 1);
+    let (cs, req) = match ClientScen::start(ctx, l, kv, seq, &req_presign, T0, 300) {
+        Some(x) => x,
+        None => return,
+    };
+    l.distinct.push(fnv(&req));
+    g_sample(|| json!({"runner": "exchange", "key": kv.tag(), "request_shape": SHAPES[rs], "signed_request": hex(&req[..req.len().min(200)])}));
+    // a second transaction whose answer is replayed into the first
+    let other = ClientScen::start(ctx, l, kv, seq, &shape(rs, false, id, 0, 1), T0 + 7, 300);
+    let resp_shapes: &[usize] = if rs == 4 { &[1, 4] } else { &[1, 2, 3] };
+    for so in OFFSETS {
+        let now_s = off(T0, so).unwrap();
+        let mut first = true;
+        for &ps in resp_shapes {
+            let presign = shape(ps, true, id, 0, 3);
+            let ssc = ServerScen::new(vec![kv.clone()], false, seq, now_s, presign.clone(), first);
+            let out = eval_server(ctx, l, &ssc, &req, "honest", true);
+            first = false;
+            if let Some(ans) = &out.answer {
+                l.distinct.push(fnv(ans));
+                for co in OFFSETS {
+                    cs.probe(ctx, l, ans, off(now_s + 1, co).unwrap(), "honest");
+                }
+                // the same answer made by the reference signer
+                if let Some((_, reqmac)) = &out.acc {
+                    let (ra, _) = ref_sign(&rk, &mac_prefix(reqmac), &presign, false, now_s + 1, 300, 0, &[]);
+                    l.c(if &ra == ans { "library answer == reference answer, octet for octet" } else { "library answer differs in encoding from reference answer" });
+                    cs.probe(ctx, l, &ra, now_s + 1, "reference-signed");
+                }
+            }
+            if let Some(er) = &out.err_response {
+                cs.probe(ctx, l, er, now_s, "library-error-response");
+            }
+            if out.got == Cls::BadTime && ps == resp_shapes[0] {
+                // RFC 8945 5.2.3 BADTIME response made by the reference signer
+                if let Locate::Found(rt) = ref_locate(&req) {
+                    let ep = shape(0, true, id, 9, 0);
+                    let (eb, _) = ref_sign(&rk, &mac_prefix(&rt.mac), &ep, false, rt.time, rt.fudge, 18, &time48(now_s));
+                    cs.probe(ctx, l, &eb, now_s, "reference-signed-BADTIME-response");
+                }
+            }
+        }
+    }
+    // replay of another transaction's answer
+    if let Some((_ocs, oreq)) = other {
+        let presign = shape(1, true, id, 0, 3);
+        let ssc = ServerScen::new(vec![kv.clone()], false, seq, T0 + 7, presign, false);
+        let out = eval_server(ctx, l, &ssc, &oreq, "honest", true);
+        if let Some(ans) = &out.answer {
+            cs.probe(ctx, l, ans, T0 + 8, "answer-of-another-transaction-replayed");
+        }
+    }
+}
+
+static SAMPLES: std::sync::Mutex<Vec<Value>> = std::sync::Mutex::new(Vec::new());
+fn g_sample(f: impl FnOnce() -> Value) {
+    let mut s = SAMPLES.lock().unwrap();
+    if s.len() < 8 {
+        s.push(f());
+    }
+}
+
+/// Fudge / clock sweep with explicit fudge values and extreme times.
+fn run_timesweep(ctx: &Arc<Ctx>, g: &Glob) {
+    let mut jobs = Vec::new();
+    for alg in ALGS {
+        for fudge in [0u16, 1, 300, 65535] {
+            for tb in [200u64, T0, 0x0123_4567_89AB, (1u64 << 48) - 1 - 70000] {
+                jobs.push((alg, fudge, tb));
+            }
+        }
+    }
+    jobs.par_iter().for_each(|&(alg, fudge, tb)| {
+        let mut l = Local::default();
+        timesweep(ctx, &mut l, alg, fudge, tb);
+        g.merge(l);
+    });
+}
+
+fn timesweep(ctx: &Ctx, l: &mut Local, alg: Alg, fudge: u16, tb: u64) {
+    let kv = KeySpec { alg, secret: SECRET.to_vec(), name: "tsig-key.example".into(), min: None, sign: None };
+    let rk = kv.refkey();
+    let id = 0x0102;
+    let req_presign = shape(0, false, id, 0, 5);
+    let (cs, req) = match ClientScen::start(ctx, l, &kv, false, &req_presign, tb, fudge) {
+        Some(x) => x,
+        None => return,
+    };
+    let f = fudge as i64;
+    for so in [-f - 1, -f, 0, f, f + 1] {
+        let now_s = match off(tb, so) {
+            Some(x) => x,
+            None => continue,
+        };
+        let ssc = ServerScen::new(vec![kv.clone()], false, false, now_s, Vec::new(), true);
+        let out = eval_server(ctx, l, &ssc, &req, "honest-timesweep", false);
+        l.distinct.push(fnv(format!("ts{alg:?}{fudge}{tb}{so}").as_bytes()));
+        if let (Some(tx), Some((_, reqmac))) = (out.tx, out.acc) {
+            let presign = shape(1, true, id, 0, 6);
+            let mut b = builder_from(&presign);
+            l.transitions += 1;
+            l.states += 1;
+            let replay = || json!({"kind": "timesweep", "alg": alg.idx(), "fudge": fudge, "tb": tb});
+            match guard(|| tx.answer_with_fudge(&mut b, Time48::from_u64(now_s), fudge).map_err(|e| format!("{e:?}"))) {
+                Err(p) => report_panic(ctx, "server", "answer_with_fudge", "", &p, &replay),
+                Ok(Err(e)) => {
+                    ctx.violation("C11|server|answer|push-error", &e, replay());
+                }
+                Ok(Ok(())) => {
+                    let signed = b.as_slice().to_vec();
+                    if check_signed_by_lib(ctx, "server", "answer_with_fudge", &rk, &mac_prefix(&reqmac), None, &presign, &signed, false, now_s, fudge, &replay).is_some() {
+                        for co in [-f - 1, -f, 0, f, f + 1] {
+                            if let Some(now_c) = off(now_s, co) {
+                                cs.probe(ctx, l, &signed, now_c, "honest-timesweep");
+                            }
+                        }
+                    }
+                }
+            }
+        }
+    }
+}
+
+/// Library ServerSequence signing `count` answers; every MAC against the
+/// reference; every answer into the library ClientSequence.
+fn server_sequence(ctx: &Ctx, l: &mut Local, kv: &KeySpec, count: usize, from_tx: bool, shapes_mask: u32) {
+    let id = 0x7777u16;
+    let rk = kv.refkey();
+    let req_presign = shape(0, false, id, 0, 9);
+    let replay = || json!({"kind": "server_seq", "key": kv.json(), "count": count, "from_tx": from_tx, "shapes_mask": shapes_mask});
+    let (mut cs, req) = match ClientScen::start(ctx, l, kv, true, &req_presign, T0, 300) {
+        Some(x) => x,
+        None => return,
+    };
+    let ssc = ServerScen::new(vec![kv.clone()], false, !from_tx, T0, Vec::new(), false);
+    let out = eval_server(ctx, l, &ssc, &req, "honest", false);
+    let mut sq: ServerSequence<K> = match (out.tx, out.sq) {
+        (Some(tx), _) => tx.into(),
+        (_, Some(sq)) => sq,
+        _ => return,
+    };
+    let (_, reqmac) = match out.acc {
+        Some(a) => a,
+        None => return,
+    };
+    let mut prior_wire = reqmac.clone();
+    let mut prior_full = reqmac;
+    for i in 0..count {
+        let ps = if shapes_mask >> i & 1 == 1 { 2 } else { 1 };
+        let presign = shape(ps, true, id, 0, i as u8);
+        let now = T0 + 1 + i as u64;
+        let mut b = builder_from(&presign);
+        l.evals += 1;
+        l.transitions += 1;
+        l.states += 1;
+        match guard(|| sq.answer(&mut b, Time48::from_u64(now)).map_err(|e| format!("{e:?}"))) {
+            Err(p) => {
+                report_panic(ctx, "server-sequence", "answer", "", &p, &replay);
+                return;
+            }
+            Ok(Err(e)) => {
+                ctx.violation("C11|server-sequence|answer|push-error", &e, replay());
+                return;
+            }
+            Ok(Ok(())) => {}
+        }
+        let signed = b.as_slice().to_vec();
+        let op = if i == 0 { "answer-first" } else { "answer-subsequent" };
+        let alt = mac_prefix(&prior_full);
+        let mac = check_signed_by_lib(ctx, "server-sequence", op, &rk, &mac_prefix(&prior_wire), Some(&alt), &presign, &signed, i > 0, now, 300, &replay);
+        let mac = match mac {
+            Some(m) => m,
+            None => {
+                l.c("server-sequence: closed after MAC mismatch");
+                return; // tainted: do not explore through it
+            }
+        };
+        l.c("server-sequence MAC equals reference");
+        l.distinct.push(fnv(&signed));
+        // full (untruncated) MAC of this message, for cause classification of the next
+        let vars = if i > 0 { ref_timers(now, 300) } else { ref_variables(&rk, now, 300, 0, &[]) };
+        prior_full = rk.full_mac(&[&mac_prefix(&prior_wire), &presign, &vars]);
+        prior_wire = mac;
+        let (_, same) = cs.step(ctx, l, &signed, now, "honest-library-server-sequence");
+        if !same {
+            return;
+        }
+        cs.check_done(ctx, l);
+    }
+}
+
+fn run_server_sequences(ctx: &Arc<Ctx>, g: &Glob) {
+    let quick = ctx.quick();
+    let maxn = if quick { 4 } else { 8 };
+    let mut jobs = Vec::new();
+    for kv in key_variants(quick, false) {
+        for n in 1..=maxn {
+            for mask in 0..(1u32 << n.min(if quick { 3 } else { 5 })) {
+                jobs.push((kv.clone(), n, false, mask));
+            }
+        }
+        jobs.push((kv.clone(), 3, true, 0b010));
+    }
+    jobs.par_iter().for_each(|(kv, n, from_tx, mask)| {
+        let mut l = Local::default();
+        server_sequence(ctx, &mut l, kv, *n, *from_tx, *mask);
+        g.merge(l);
+    });
+}
+
+/// Build the next message an honest RFC 8945 server (the reference signer)
+/// would send for symbol `sym`, given the verifier-side reference state.
+fn seq_message(sym: u8, st: &ClientScen, rk: &RefKey, depth: usize, now: u64, last_signed: &Option<Vec<u8>>) -> Option<Vec<u8>> {
+    let id = get16(&st.req_presign, 0);
+    let presign = shape(1 + depth % 2, true, id, 0, depth as u8);
+    let mut prefix = mac_prefix(&st.rc.prior);
+    prefix.extend_from_slice(&st.rc.pending);
+    let timers = !st.rc.first;
+    Some(match sym {
+        b'S' => ref_sign(rk, &prefix, &presign, timers, now, 300, 0, &[]).0,
+        b'U' => presign,
+        b'R' => last_signed.clone()?,
+        b'B' => {
+            let mut m = ref_sign(rk, &prefix, &presign, timers, now, 300, 0, &[]).0;
+            if let Locate::Found(t) = ref_locate(&m) {
+                // MAC is followed by original id(2) error(2) other len(2)
+                let p = m.len() - 6 - t.other.len() - 1;
+                m[p] ^= 0x80;
+            }
+            m
+        }
+        b'T' => ref_sign(rk, &prefix, &presign, timers, now - 301, 300, 0, &[]).0,
+        b'W' => {
+            let mut w = rk.clone();
+            w.hk = hmac::Key::new(rk.alg.ring(), b"not the shared secret");
+            ref_sign(&w, &prefix, &presign, timers, now, 300, 0, &[]).0
+        }
+        _ => return None,
+    })
+}
+
+fn explore_seq(ctx: &Ctx, l: &mut Local, st: &ClientScen, rk: &RefKey, alphabet: &[u8], depth: usize, max: usize, last_signed: &Option<Vec<u8>>, path: &mut String) {
+    st.check_done(ctx, l);
+    if depth == max {
+        return;
+    }
+    for &sym in alphabet {
+        let now = T0 + 10 + depth as u64;
+        let msg = match seq_message(sym, st, rk, depth, now, last_signed) {
+            Some(m) => m,
+            None => continue,
+        };
+        path.push(sym as char);
+        let mut child = st.clone();
+        let (got, same) = child.step(ctx, l, &msg, now, path);
+        l.distinct.push(fnv(format!("seq{}{}", st.key.tag(), path).as_bytes()));
+        if path.len() <= 4 {
+            g_sample_seq(path, got);
+        }
+        if same && got == Cls::Accept {
+            let ls = if sym == b'S' { Some(msg) } else { last_signed.clone() };
+            explore_seq(ctx, l, &child, rk, alphabet, depth + 1, max, &ls, path);
+        }
+        path.pop();
+    }
+}
+
+fn g_sample_seq(path: &str, got: Cls) {
+    if path == "SUS" || path == "SR" || path == "U" || path == "SUB" {
+        g_sample(|| json!({"runner": "client-sequence", "pattern": path, "library_verdict_for_last_message": format!("{got:?}")}));
+    }
+}
+
+fn run_client_sequences(ctx: &Arc<Ctx>, g: &Glob, wd: &Watchdog) {
+    let quick = ctx.quick();
+    let kvs = key_variants(quick, false);
+    // (alphabet, depth)
+    let plans: Vec<(&[u8], usize)> = if quick { vec![(b"SU", 6), (b"SURBTW", 3)] } else { vec![(b"SU", 8), (b"SURBTW", 5)] };
+    let mut jobs = Vec::new();
+    for kv in &kvs {
+        for (pi, _) in plans.iter().enumerate() {
+            jobs.push((kv.clone(), pi));
+        }
+    }
+    jobs.par_iter().for_each(|(kv, pi)| {
+        wd.enter(|| json!({"kind": "job", "runner": "client-sequences", "key": kv.json(), "plan": pi}));
+        let mut l = Local::default();
+        let (alpha, depth) = plans[*pi];
+        if let Some((cs, _req)) = ClientScen::start(ctx, &mut l, kv, true, &shape(0, false, 0x4242, 0, 0), T0 + 9, 300) {
+            let mut path = String::new();
+            explore_seq(ctx, &mut l, &cs, &kv.refkey(), alpha, 0, depth, &None, &mut path);
+        }
+        g.merge(l);
+        wd.leave();
+    });
+    // S U^k S for k = 0..=101
+    let chain_kvs: Vec<KeySpec> = kvs.iter().filter(|k| k.name.starts_with('t') && (quick && k.min.is_none() && k.sign.is_none() || !quick && k.min == k.sign)).cloned().collect();
+    chain_kvs.par_iter().for_each(|kv| {
+        let mut l = Local::default();
+        unsigned_chain(ctx, &mut l, kv);
+        g.merge(l);
+    });
+}
+
+fn unsigned_chain(ctx: &Ctx, l: &mut Local, kv: &KeySpec) {
+    let rk = kv.refkey();
+    let (mut cs, _req) = match ClientScen::start(ctx, l, kv, true, &shape(0, false, 0x5151, 0, 0), T0, 300) {
+        Some(x) => x,
+        None => return,
+    };
+    let mut path = String::from("S");
+    let m = seq_message(b'S', &cs, &rk, 0, T0 + 1, &None).unwrap();
+    let (_, same) = cs.step(ctx, l, &m, T0 + 1, &path);
+    if !same {
+        return;
+    }
+    let mut rejected = false;
+    for k in 0..=101usize {
+        // branch: S after U^k
+        if !rejected {
+            let mut b = cs.clone();
+            let m = seq_message(b'S', &b, &rk, k + 1, T0 + 2 + k as u64, &None).unwrap();
+            let (got, same) = b.step(ctx, l, &m, T0 + 2 + k as u64, &format!("S U^{k} S"));
+            l.c(&format!("S U^k S final verdict: {got:?}"));
+            if same {
+                b.check_done(ctx, l);
+            }
+        }
+        if k == 101 {
+            break;
+        }
+        path.push('U');
+        let m = seq_message(b'U', &cs, &rk, k + 1, T0 + 2 + k as u64, &None).unwrap();
+        let (got, same) = cs.step(ctx, l, &m, T0 + 2 + k as u64, &format!("S U^{}", k + 1));
+        l.distinct.push(fnv(format!("chain{}{}", kv.tag(), k).as_bytes()));
+        l.c(&format!("unsigned #{:03}..: {got:?}", (k + 1) / 50 * 50));
+        if k + 1 == 99 || k + 1 == 100 {
+            g_sample(|| json!({"runner": "unsigned-chain", "key": kv.tag(), "unsigned_message_number": k + 1, "library_verdict": format!("{got:?}")}));
+        }
+        if !same {
+            return;
+        }
+        if got != Cls::Accept {
+            rejected = true;
+        }
+        cs.check_done(ctx, l);
+    }
+}
+
+enum MutTarget {
+    Server(ServerScen),
+    Client(ClientScen, u64),
+}
+
+struct MutScen {
+    tag: String,
+    base: Vec<u8>,
+    target: MutTarget,
+    structural: Vec<(String, Vec<u8>)>,
+    bits: bool,
+    post: bool,
+}
+
+impl MutScen {
+    fn eval(&self, ctx: &Ctx, l: &mut Local, msg: &[u8], name: &str) {
+        match &self.target {
+            MutTarget::Server(s) => {
+                eval_server(ctx, l, s, msg, name, self.post);
+            }
+            MutTarget::Client(c, now) => {
+                c.probe(ctx, l, msg, *now, name);
+            }
+        }
+    }
+}
+
+fn other_keys(kv: &KeySpec) -> Vec<KeySpec> {
+    let mut v = vec![kv.clone()];
+    for a in ALGS {
+        if a != kv.alg {
+            v.push(KeySpec { alg: a, secret: b"secret of the same name, other algorithm".to_vec(), name: kv.name.clone(), min: None, sign: None });
+        }
+    }
+    v.push(KeySpec { alg: kv.alg, secret: b"secret of the other key".to_vec(), name: "other-key.example".into(), min: None, sign: None });
+    v
+}
+
+fn build_mut_scens(ctx: &Ctx, l: &mut Local, kv: &KeySpec, with_big: bool) -> Vec<MutScen> {
+    let mut v = Vec::new();
+    let rk = kv.refkey();
+    let id = 0x3C3Cu16;
+    let now_s = T0 + 5;
+    let req_shapes: Vec<usize> = if with_big { vec![0, 2, 3, 4] } else { vec![0, 2, 3] };
+    for &rs in &req_shapes {
+        let small = rs != 4;
+        let (cs_tx, req) = match ClientScen::start(ctx, l, kv, false, &shape(rs, false, id, 0, 1), T0, 300) {
+            Some(x) => x,
+            None => continue,
+        };
+        let ans_presign = shape(if small { 1 } else { 4 }, true, id, 0, 2);
+        let ssc = ServerScen::new(vec![kv.clone()], false, false, now_s, ans_presign.clone(), small);
+        let out = eval_server(ctx, l, &ssc, &req, "mutation-base", true);
+        if out.got != Cls::Accept || out.acc.is_none() {
+            l.c("mutation base skipped: server does not accept the honest request as the reference does");
+            continue;
+        }
+        let st = structural(&req, &rk, &[], false, now_s);
+        v.push(MutScen { tag: format!("server/{}/{}", kv.tag(), SHAPES[rs]), base: req.clone(), target: MutTarget::Server(ssc), structural: st.clone(), bits: true, post: small });
+        if small {
+            let keys = other_keys(kv);
+            for (multi, seq) in [(true, false), (true, true), (false, true)] {
+                let ks = if multi { keys.clone() } else { vec![kv.clone()] };
+                let s2 = ServerScen::new(ks, multi, seq, now_s, ans_presign.clone(), true);
+                v.push(MutScen { tag: format!("server-multi={multi}-seq={seq}/{}/{}", kv.tag(), SHAPES[rs]), base: req.clone(), target: MutTarget::Server(s2), structural: st.clone(), bits: false, post: true });
+            }
+        }
+        // responses to this request, verified by the client machines
+        let reqmac = out.acc.as_ref().unwrap().1.clone();
+        let resp_shapes: Vec<usize> = if small { vec![1, 2] } else { vec![4] };
+        if rs == 2 {
+            continue; // responses are enumerated for request shapes query/full/big
+        }
+        for &ps in &resp_shapes {
+            let presign = shape(ps, true, id, 0, 2);
+            let ssc = ServerScen::new(vec![kv.clone()], false, false, now_s, presign.clone(), false);
+            let out = eval_server(ctx, l, &ssc, &req, "mutation-base", true);
+            let resp = match out.answer {
+                Some(a) => a,
+                None => {
+                    l.c("mutation base: library answer unusable, reference-signed answer used");
+                    ref_sign(&rk, &mac_prefix(&reqmac), &presign, false, now_s + 1, 300, 0, &[]).0
+                }
+            };
+            let now_c = now_s + 1;
+            for seq in [false, true] {
+                let cs = if seq {
+                    match ClientScen::start(ctx, l, kv, true, &shape(rs, false, id, 0, 1), T0, 300) {
+                        Some((c, r2)) if r2 == req => c,
+                        _ => continue,
+                    }
+                } else {
+                    cs_tx.clone()
+                };
+                let (got, same) = cs.probe(ctx, l, &resp, now_c, "mutation-base");
+                if !(same && got == Cls::Accept) {
+                    l.c("mutation base skipped: client does not accept the honest answer as the reference does");
+                    continue;
+                }
+                let st = structural(&resp, &rk, &mac_prefix(&cs.rc.prior), false, now_c);
+                v.push(MutScen { tag: format!("client-seq={seq}/{}/{}", kv.tag(), SHAPES[ps]), base: resp.clone(), target: MutTarget::Client(cs.clone(), now_c), structural: st, bits: !seq || small, post: false });
+                if seq && small && ps == 1 {
+                    // subsequent messages: after S, and after S U
+                    let mut c1 = cs.clone();
+                    let (_, same) = c1.step(ctx, l, &resp, now_c, "S");
+                    if !same {
+                        continue;
+                    }
+                    for with_unsigned in [false, true] {
+                        let mut c2 = c1.clone();
+                        if with_unsigned {
+                            let u = seq_message(b'U', &c2, &rk, 1, now_c + 1, &None).unwrap();
+                            let (_, same) = c2.step(ctx, l, &u, now_c + 1, "SU");
+                            if !same {
+                                continue;
+                            }
+                        }
+                        let base = seq_message(b'S', &c2, &rk, 2, now_c + 2, &None).unwrap();
+                        let (got, same) = c2.probe(ctx, l, &base, now_c + 2, "mutation-base");
+                        if !(same && got == Cls::Accept) {
+                            l.c("mutation base skipped: client sequence does not accept the honest subsequent answer");
+                            continue;
+                        }
+                        let mut prefix = mac_prefix(&c2.rc.prior);
+                        prefix.extend_from_slice(&c2.rc.pending);
+                        let st = structural(&base, &rk, &prefix, true, now_c + 2);
+                        v.push(MutScen { tag: format!("client-seq-subsequent(unsigned-before={with_unsigned})/{}", kv.tag()), base, target: MutTarget::Client(c2, now_c + 2), structural: st, bits: true, post: false });
+                    }
+                }
+            }
+        }
+        // signed BADTIME error response (RFC 8945 5.2.3), made by the reference
+        if rs == 0 {
+            if let Locate::Found(rt) = ref_locate(&req) {
+                let late = T0 + 1000;
+                let ep = shape(0, true, id, 9, 0);
+                let (eb, _) = ref_sign(&rk, &mac_prefix(&rt.mac), &ep, false, rt.time, rt.fudge, 18, &time48(late));
+                let (got, same) = cs_tx.probe(ctx, l, &eb, late, "mutation-base-BADTIME");
+                if same && got == Cls::SrvBadTime {
+                    let st = structural(&eb, &rk, &mac_prefix(&rt.mac), false, late);
+                    v.push(MutScen { tag: format!("client-badtime-response/{}", kv.tag()), base: eb, target: MutTarget::Client(cs_tx.clone(), late), structural: st, bits: true, post: false });
+                } else {
+                    l.c("mutation base skipped: BADTIME response of the reference signer not recognised by the client (known digest defect closes this branch)");
+                }
+            }
+        }
+    }
+    v
+}
+
+const CHUNK_BITS: usize = 2048;
+
+fn run_mutations(ctx: &Arc<Ctx>, g: &Glob, wd: &Watchdog) -> Value {
+    let quick = ctx.quick();
+    let kvs = key_variants(quick, true);
+    let scens: Vec<MutScen> = kvs
+        .par_iter()
+        .flat_map_iter(|kv| {
+            let mut l = Local::default();
+            let with_big = !quick && kv.min.is_none() && kv.sign.is_none() && kv.name.starts_with('t');
+            let v = build_mut_scens(ctx, &mut l, kv, with_big);
+            g.merge(l);
+            v.into_iter()
+        })
+        .collect();
+    let mut jobs: Vec<(usize, usize, usize)> = Vec::new(); // (scenario, first bit, end bit); (s, MAX, MAX) = structural
+    let mut nbits = 0u64;
+    let mut nstruct = 0u64;
+    for (i, s) in scens.iter().enumerate() {
+        jobs.push((i, usize::MAX, usize::MAX));
+        nstruct += s.structural.len() as u64;
+        if s.bits {
+            let total = s.base.len() * 8;
+            nbits += total as u64;
+            let mut b = 0;
+            while b < total {
+                jobs.push((i, b, (b + CHUNK_BITS).min(total)));
+                b += CHUNK_BITS;
+            }
+        }
+    }
+    if let Some(s) = scens.iter().find(|s| s.tag.starts_with("server/")) {
+        g_sample(|| json!({"runner": "mutations", "scenario": s.tag, "base_message": hex(&s.base[..s.base.len().min(300)]),
+                           "mutations": format!("every bit 0..{} and {} structural", s.base.len() * 8, s.structural.len()),
+                           "structural_names": s.structural.iter().map(|x| x.0.clone()).filter(|n| !n.starts_with("mac-length")).collect::<Vec<_>>()}));
+    }
+    jobs.par_iter().for_each(|&(si, from, to)| {
+        let s = &scens[si];
+        wd.enter(|| json!({"kind": "job", "runner": "mutations", "scenario": s.tag, "bits": [from, to]}));
+        let mut l = Local::default();
+        let sh = fnv(s.tag.as_bytes());
+        if from == usize::MAX {
+            for (name, msg) in &s.structural {
+                s.eval(ctx, &mut l, msg, name);
+                l.distinct.push(sh ^ fnv(name.as_bytes()));
+            }
+        } else {
+            let mut m = s.base.clone();
+            for bit in from..to {
+                m[bit / 8] ^= 0x80 >> (bit % 8);
+                let name = if verbose() { format!("bit-{bit}") } else { String::new() };
+                s.eval(ctx, &mut l, &m, if verbose() { &name } else { "single-bit-flip" });
+                m[bit / 8] ^= 0x80 >> (bit % 8);
+                l.distinct.push(sh ^ (bit as u64).wrapping_mul(0x9E3779B97F4A7C15));
+            }
+        }
+        g.merge(l);
+        wd.leave();
+    });
+    json!({"scenarios": scens.len(), "bit_flips": nbits, "structural_mutations": nstruct,
+           "largest_message": scens.iter().map(|s| s.base.len()).max().unwrap_or(0)})
+}
+
+// =====================================================================
+// REPLAY AND MAIN
+// =====================================================================
+
+fn run_replay(ctx: &Arc<Ctx>, path: &str) -> ! {
+    VERBOSE.store(true, AO::Relaxed);
+    let text = std::fs::read_to_string(path).unwrap_or_else(|e| {
+        eprintln!("MACHINERY: cannot read replay {path}: {e}");
+        std::process::exit(2)
+    });
+    let v: Value = serde_json::from_str(&text).expect("replay json");
+    let case = &v["case"];
+    let mut l = Local::default();
+    println!("replaying {} ({})", path, case["kind"]);
+    match case["kind"].as_str().unwrap_or("") {
+        "key_new" => {
+            check_key_new(ctx, &mut l, Alg::from_idx(case["alg"].as_u64().unwrap() as usize), case["min"].as_u64().map(|x| x as usize), case["sign"].as_u64().map(|x| x as usize));
+        }
+        "server_request" => {
+            let (sc, msg) = ServerScen::from_json(case);
+            println!("  request: {}", hex(&msg));
+            eval_server(ctx, &mut l, &sc, &msg, "replay", true);
+        }
+        "client" => {
+            let key = KeySpec::from_json(&case["key"]);
+            let seq = case["seq"].as_bool().unwrap();
+            let start = ClientScen::start(ctx, &mut l, &key, seq, &unhex(case["req_presign"].as_str().unwrap()), case["req_now"].as_u64().unwrap(), case["fudge"].as_u64().unwrap() as u16);
+            if let Some((mut cs, req)) = start {
+                println!("  signed request: {}", hex(&req));
+                for (i, s) in case["steps"].as_array().unwrap().iter().enumerate() {
+                    let m = unhex(s["msg"].as_str().unwrap());
+                    println!("  step {i}: now {} message {}", s["now"], hex(&m));
+                    cs.step(ctx, &mut l, &m, s["now"].as_u64().unwrap(), "replay");
+                }
+                if case["done"].as_bool() == Some(true) {
+                    cs.check_done(ctx, &mut l);
+                }
+            }
+        }
+        "server_seq" => {
+            server_sequence(ctx, &mut l, &KeySpec::from_json(&case["key"]), case["count"].as_u64().unwrap() as usize, case["from_tx"].as_bool().unwrap(), case["shapes_mask"].as_u64().unwrap() as u32);
+        }
+        "timesweep" => {
+            timesweep(ctx, &mut l, Alg::from_idx(case["alg"].as_u64().unwrap() as usize), case["fudge"].as_u64().unwrap() as u16, case["tb"].as_u64().unwrap());
+        }
+        k => {
+            println!("  replay kind {k:?} names a whole job; rerun the tier to reproduce it");
+        }
+    }
+    ctx.finish(
+        json!({"states": l.states.max(1), "transitions": l.transitions.max(1), "traces_validated_against_impl": l.transitions,
+               "evaluations": l.evals.max(1), "distinct_nontrivial": 0, "rule": "replay of one case", "samples": [], "exhaustive": false}),
+        &["replay run"],
+    )
+}
+
+fn self_test() {
+    // machinery: the preloaded target must reproduce the octets it was given,
+    // and the reference must accept what the reference signs.
+    for k in 0..5 {
+        let raw = shape(k, k % 2 == 1, 0x1111, 0, 3);
+        let b = builder_from(&raw);
+        if b.as_slice() != &raw[..] {
+            eprintln!("MACHINERY: preloaded builder changed the message octets");
+            std::process::exit(2);
+        }
+        match (walk(&raw), wire::read_message(&raw)) {
+            (Ok(w), Ok(rm)) if w.end == raw.len() && rm.end == raw.len() => {}
+            _ => {
+                eprintln!("MACHINERY: harness message shape {k} does not parse");
+                std::process::exit(2);
+            }
+        }
+        if Message::from_octets(raw.clone()).map(|m| m.additional().is_err()).unwrap_or(true) {
+            eprintln!("MACHINERY: harness message shape {k} is not walked by the library");
+            std::process::exit(2);
+        }
+    }
+    let kv = KeySpec { alg: Alg::Sha256, secret: SECRET.to_vec(), name: "Self.Test".into(), min: Some(16), sign: Some(20) };
+    let rk = kv.refkey();
+    let (signed, mac) = ref_sign(&rk, &[], &shape(3, false, 7, 0, 0), false, T0, 300, 0, &[]);
+    let (e, acc) = ref_server(&[rk.clone()], &signed, T0 + 300);
+    if e.primary != Cls::Accept || acc.map(|a| a.1) != Some(mac) {
+        eprintln!("MACHINERY: reference verifier rejects the reference signer");
+        std::process::exit(2);
+    }
+    // RFC 8945 / RFC 4635 known answer: HMAC-SHA256 of RFC 4231 test case 2
+    let k = hmac::Key::new(hmac::HMAC_SHA256, b"Jefe");
+    let t = hmac::sign(&k, b"what do ya want for nothing?");
+    if hex(t.as_ref()) != "5bdcc146bf60754e6a042426089575c75a003f089d2739839dec58b964ec3843" {
+        eprintln!("MACHINERY: ring::hmac known-answer test failed");
+        std::process::exit(2);
+    }
+}
+
+fn main() {
+    let ctx = Ctx::new("C11", "model_checking");
+    if let Some(p) = ctx.replay.clone() {
+        run_replay(&ctx, &p);
+    }
+    self_test();
+    let g = Glob::new();
+    let wd = Watchdog::start(ctx.clone(), std::time::Duration::from_secs(240), |d| {
+        format!("C11|hang|{}", d["runner"].as_str().unwrap_or("?"))
+    });
+    run_key_bounds(&ctx, &g);
+    run_exchanges(&ctx, &g, &wd);
+    run_timesweep(&ctx, &g);
+    run_server_sequences(&ctx, &g);
+    run_client_sequences(&ctx, &g, &wd);
+    let mutinfo = run_mutations(&ctx, &g, &wd);
+
+    let quick = ctx.quick();
+    let transitions = g.transitions.load(AO::Relaxed);
+    let sum = |h: &[[AtomicU64; NCLS]; 3], pred: &dyn Fn(usize) -> bool| -> u64 {
+        let mut n = 0;
+        for r in h.iter() {
+            for (c, x) in r.iter().enumerate() {
+                if pred(c) {
+                    n += x.load(AO::Relaxed);
+                }
+            }
+        }
+        n
+    };
+    let acc = Cls::Accept as usize;
+    ctx.finish(
+        json!({
+            "states": g.states.load(AO::Relaxed),
+            "transitions": transitions,
+            "traces_validated_against_impl": transitions,
+            "evaluations": g.stats.evals(),
+            "distinct_nontrivial": g.stats.distinct_count(),
+            "rule": "distinct = hash of (scenario, mutation or pattern) for every case in which a real TSIG state machine was stepped on a message the reference could place a verdict on; trivial cases (machinery self-tests) are not counted",
+            "exhaustive": true,
+            "bounds": {
+                "tier": if quick { "quick" } else { "thorough" },
+                "algorithms": ["hmac-sha1", "hmac-sha256", "hmac-sha384", "hmac-sha512"],
+                "key_lengths": "Key::new: every (min_mac_len, signing_len) in {None, 0..=native+2, 255, 65536}^2 per algorithm; exchanges: {native, floor(, floor+3 thorough)}^2 x {lower-case, mixed-case key name}",
+                "clock_offsets": OFFSETS,
+                "timesweep": "fudge {0,1,300,65535} x base time {200, 1.7e9, 0x0123456789AB, 2^48-70001} x offsets {-f-1,-f,0,f,f+1}",
+                "message_shapes": SHAPES,
+                "client_sequence_patterns": if quick { "all S/U patterns <=6; alphabet {S,U,Replay,BadMac,Time,WrongSecret} <=3; S U^k S k=0..101" } else { "all S/U patterns <=8; alphabet {S,U,Replay,BadMac,Time,WrongSecret} <=5; S U^k S k=0..101" },
+                "server_sequence_lengths": if quick { "1..=4" } else { "1..=8" },
+                "mutations": mutinfo,
+            },
+            "verdict_histogram_library": g.hist(&g.lib_cls),
+            "verdict_histogram_reference": g.hist(&g.ref_cls),
+            "accepted_by_library": sum(&g.lib_cls, &|c| c == acc),
+            "accepted_by_reference": sum(&g.ref_cls, &|c| c == acc),
+            "rejected_by_library": sum(&g.lib_cls, &|c| c != acc),
+            "rejected_by_reference": sum(&g.ref_cls, &|c| c != acc),
+            "counters": g.stats.counters_json(),
+            "samples": SAMPLES.lock().unwrap().clone(),
+        }),
+        &[
+            "the oracle is an RFC 8945 signer/verifier written in the harness on ring::hmac; ring's HMAC itself is trusted (known-answer self-test)",
+            "message parsing disagreements are not TSIG verdicts: where the reference cannot walk a mutated message, FORMERR, BADSIG and BADKEY are all accepted as rejection",
+            "client side: RFC 8945 assigns no wire error to a client; for MAC-length faults FormErr, BadTrunc and BadSig are all accepted, for NOTAUTH+BADKEY/BADSIG any rejection",
+            "two simultaneous faults where one is the local truncation policy: either error accepted (the library checks the policy first, RFC 8945 5.2 last)",
+            "'returns the message to its pre-signing octets' is read as: the message delimited by its own section counts equals the pre-signing octets; the library cannot shrink the octets type and leaves the TSIG octets behind the end (counted in counters)",
+            "a branch whose honest base case already disagrees with the reference (a reported finding) is closed, not explored through",
+            "single-bit flips are first-order: pairs of flips are not enumerated",
+        ],
+    );
 }
